@@ -800,6 +800,8 @@ class Spectrum:
             # precision, integers)
             if self.wave.dtype.kind in 'fiub' and self.wave.dtype != np.float64:
                 self.wave = self.wave.astype(np.float64)
+            if self.value.dtype.kind == 'f' and self.value.dtype.itemsize < 8:
+                self.value = self.value.astype(np.float64)
 
             if unit.lower() in ['m', 'meter', 'um', 'micron', 'nm', 'nanometer', 'angstrom']:
                 if self.valueunit in ['photlam', 'flam', 'wlam']:
